@@ -55,6 +55,15 @@ class Node(param.Parameterized):
     def record(self, *events):
         self.calls.append(('watch',) + tuple((e.name, e.new) for e in events))
 
+    def record1(self, *events):
+        self.calls.append(('watch_p1',))
+
+    def record2(self, *events):
+        self.calls.append(('watch_p2',))
+
+    def record3(self, *events):
+        self.calls.append(('watch_p3',))
+
 
 class Plain(param.Parameterized):
     """no sub-object dependencies: the control group"""
@@ -79,10 +88,29 @@ class Plain(param.Parameterized):
     def record(self, *events):
         self.calls.append(('watch',) + tuple((e.name, e.new) for e in events))
 
+    def record1(self, *events):
+        self.calls.append(('watch_p1',))
+
+    def record2(self, *events):
+        self.calls.append(('watch_p2',))
+
+    def record3(self, *events):
+        self.calls.append(('watch_p3',))
+
+
+class Slotted(Node):
+    """keeps an ordinary attribute in a slot of the most derived class"""
+    __slots__ = ['slot_attr']
+
+    def __init__(self, **params):
+        super().__init__(**params)
+        self.slot_attr = ['slot', 0]
+
 
 def state_of(o):
     sub = o.sub
     return {
+        'slot_attr': list(getattr(o, 'slot_attr', ['<missing>'])) if isinstance(o, Slotted) else None,
         'a': o.a, 'b': o.b, 'l': list(o.l), 'sub': None if sub is None else (sub.v, sub.w),
         'inner': None if sub is None or sub.inner is None else sub.inner.v,
         'extra': {k: list(v) for k, v in o.extra.items()}, 'calls': list(o.calls),
@@ -113,13 +141,13 @@ class CopyWorld:
 
     def gen(self, rng, prop, tier, avoid):
         big = tier == 'thorough'
-        cfg = {'cls': 'Plain' if ('sub_dependency' in avoid or rng.random() < 0.25) else 'Node', 'avoid': sorted(avoid)}
+        cfg = {'cls': 'Plain' if ('sub_dependency' in avoid or rng.random() < 0.25) else rng.choice(['Node', 'Node', 'Slotted']), 'avoid': sorted(avoid)}
         n_ops = min(50 if big else 28, 3 + int(rng.expovariate(1 / (13.0 if big else 8.0))))
         ops = []
         snaps = 0
         for j in range(n_ops):
             table = [('set_a', 4), ('set_b', 2), ('same_a', 0.7), ('mut_l', 2), ('set_l', 1), ('mut_extra', 1.5), ('attr', 1.5), ('attach', 2.5),
-                     ('detach', 0.7), ('leaf', 4), ('watch', 0.8), ('update', 1.5), ('attach_inner', 2), ('leaf_inner', 2.5),
+                     ('detach', 0.7), ('leaf', 4), ('watch', 1.5), ('update', 1.5), ('attach_inner', 2), ('leaf_inner', 2.5), ('mut_slot', 0.7),
                      ('snap', 3.5 if j >= 1 and snaps < 3 else 0)]
             k = weighted(rng, table)
             op = {'op': k, 'side': rng.randint(0, 3)}
@@ -153,7 +181,7 @@ class CopyWorld:
     def run(self, case):
         out = Outcome()
         cfg = case['cfg']
-        K = Node if cfg['cls'] == 'Node' else Plain
+        K = {'Node': Node, 'Plain': Plain, 'Slotted': Slotted}[cfg['cls']]
         objs = [K()]
         counter = [10]
         snapped_interesting = False
@@ -176,7 +204,7 @@ class CopyWorld:
                 exp.append('m_a')
             if after['a'] != before['a'] or after['b'] != before['b']:
                 exp.append('m_ab')
-            if K is Node:
+            if K is not Plain:
                 bs, as_ = before['sub'], after['sub']
                 if bs is not None and as_ is not None:
                     if bs[0] != as_[0]:
@@ -280,7 +308,19 @@ class CopyWorld:
                         continue
                     o.sub.inner.v = fresh()
                 elif k == 'watch':
-                    o.param.watch(o.record, ['b'])
+                    # registered in the reverse of their precedence order: the copy must keep calling them by precedence
+                    nw = sum(1 for w in o.param.watchers.get('b', {}).get('value', []) if w.precedence > 0)
+                    if nw == 0:
+                        o.param.watch(o.record3, ['b'], precedence=3)
+                    elif nw == 1:
+                        o.param.watch(o.record2, ['b'], precedence=2)
+                    elif nw == 2:
+                        o.param.watch(o.record1, ['b'], precedence=1)
+                    else:
+                        o.param.watch(o.record, ['b'])
+                elif k == 'mut_slot':
+                    if isinstance(o, Slotted):
+                        o.slot_attr.append(fresh())
             except Exception as e:      # noqa
                 viol('C17.deps_on_copy' if si else 'C17.exception', step, f"{k} on side {si} raised {type(e).__name__}: {str(e)[:160]}")
                 break
@@ -296,7 +336,14 @@ class CopyWorld:
             if out.violations:
                 break
             exp = expected_calls(o, before, k)
-            got = [c[0] for c in o.calls[n_calls:] if c[0] != 'watch']
+            new_calls = [c[0] for c in o.calls[n_calls:]]
+            got = [c for c in new_calls if not c.startswith('watch')]
+            # user watchers of b run after the depends methods (precedence -1) and among themselves by precedence
+            order = [c for c in new_calls if c in ('m_ab', 'watch_p1', 'watch_p2', 'watch_p3')]
+            if order != sorted(order, key=lambda c: {'m_ab': -1, 'watch_p1': 1, 'watch_p2': 2, 'watch_p3': 3}[c]):
+                viol('C17.deps_on_copy', step, f"{k} on side {si} ({'copy' if si else 'original'}): callbacks ran in the order {order}, "
+                                               f"a fresh object runs them by precedence")
+                break
             if '?' not in exp and sorted(got) != sorted(exp):
                 viol('C17.deps_on_copy', step, f"{k} on side {si} ({'copy' if si else 'original'}): dependent methods ran {got}, a fresh object runs {sorted(exp)}; "
                                                f"state {before} -> {state_of(o)}")
